@@ -25,7 +25,7 @@ CHECKS = {
    text='Checkpoint.tla (field-group level: what each step dirties vs what each write kind writes) is model-checked for BoundaryEqual with the real step table and two broken tables that must fail; on the code, EVERY batch boundary of sliced reference runs is resumed from a copy of the checkpoint: load = memory part by part, then one and two further batches must reach the reference states (2-step bisimulation), which by induction gives equality for every sequence of stops; whole-run finals of uninterrupted and multi-stop histories are compared bit for bit.',
    ref='DESIGN 4.3, 5/C05'),
  'C06': dict(cat='model_checking', tech='TLA+ spec (Checkpoint.tla, crash at every step) model-checked with TLC + strace syscall log validated against CheckpointIO.tla + SIGKILL injection at system calls',
-   text='Checkpoint.tla makes every file-system step of both protocols a separate action with Crash enabled everywhere: TLC proves Atomic/Recent/Restartable for write-to-temporary-then-rename and refutes them for the in-place protocol of the pinned commit. The syscall log of a real run (strace on the checkpoint paths) is validated against the file-level actions (no mutation of the live file except an atomic rename of a closed temporary), and child processes are killed at system calls on those paths (strided in quick, every call in thorough); the file left must be exactly checkpoint j or j+1 of the reference run and resumable.',
+   text='Checkpoint.tla makes every file-system step of both protocols a separate action with Crash enabled everywhere: TLC proves Atomic/Recent/Restartable for write-to-temporary-then-rename and refutes them for the in-place protocol of the pinned commit. The syscall log of a real run (strace on the checkpoint paths) is validated against the file-level actions (no mutation of the live file except an atomic rename of a closed temporary), and child processes are killed at system calls on those paths (strided in quick, every call in thorough); the file left must be exactly checkpoint j or j+1 of the reference run, and re-running the script on it (stale temporary file present) must end in the same state as continuing from a pristine copy of that checkpoint.',
    ref='DESIGN 4.3, 5/C06'),
  'C07': dict(cat='model_checking', tech='TLA+ spec (Bounds.tla) model-checked with TLC + trace validation (BoundsTrace.tla) of exhaustively enumerated operation trees replayed on real bound objects',
    text='Bounds.tla states the life cycle of bound objects; the replayer walks all split/trim/sample sequences on unions (both member classes, unit on/off) and sample/reset sequences on every other class (cube, ellipsoid, mixture, neural, nautilus with 0-2 networks, periodic shift, pool) and logs observations made with the object\'s own contains(): Enclosed (construction points), SampleInside/SampleInCube, InsideOuter; TLC requires them after every operation.',
@@ -34,7 +34,7 @@ CHECKS = {
    text='At the leaves of the operation tree of unions and after sample/reset sequences of every other class, the object is written to an HDF5 group and read back with a generator cloned from the writer: identical contains() on 3500+ probes, identical log_v, identical next 1400 samples (RT_* clauses), also for write, sample, update, read.',
    ref='DESIGN 4.5, 5/C09'),
  'C13': dict(cat='model_checking', tech='TLA+ spec (Bounds.tla) model-checked with TLC (abstract geometry) + trace validation of ALL operation sequences up to a length on real unions',
-   text='Bounds.tla is model-checked exhaustively with abstract geometry (all partitions of 7-8 points, all volume splits): RecordsAligned, Partition, NonEmpty and conformance of every step to the clauses; a variant whose trim forgets the flag must fail. On the code every sequence over {split(overlap), split(no overlap), trim, sample, log_v} up to length 4 (quick) / 5 (thorough) is executed once per point set (DFS with deep copies) and every edge validated clause by clause.',
+   text='Bounds.tla is model-checked exhaustively with abstract geometry (all partitions of 7-8 points, all volume splits): RecordsAligned, Partition, NonEmpty and conformance of every step to the clauses; a variant whose trim forgets the flag must fail. On the code every sequence over {split(overlap), split(no overlap), trim, sample, log_v} up to length 4 (quick) / 5 (thorough) is executed once per point set (DFS with deep copies) and every edge validated clause by clause; the unions that NautilusBound.compute builds inside real sampler runs are recorded and validated the same way.',
    ref='DESIGN 4.5, 5/C13'),
  'C14': dict(cat='model_checking', tech='TLA+ spec (EqualWeight.tla) model-checked with TLC + trace validation of real equal-weight resampling calls with cloned generator draws',
    text='EqualWeight.tla defines the resampling step; TLC checks floor-or-ceil, order, no repeats for boost<=1 and ExpectationExact (the number of draws that add a copy is exactly frac(r)*G) on all small inputs and refutes a ceil variant. On real runs (zero-weight rows included), for boosts {0.3,1,2.5,10} and several generator states, the generator is cloned before the call, so each row\'s multiplicity must equal floor(r)+[u<frac(r)] for the actual draw u; order, (likelihood, blob) of repeats, equal normalised weights, unchanged weighted posterior and stored state are clauses of the trace spec.',
